@@ -151,7 +151,7 @@ def link_pairs(lines):
     s = set()
     for t in lines:
         f = t.split("\t")
-        if f[0] == "L" and len(f) >= 6:
+        if f[0] == "L" and len(f) >= 6 and H.VIRTUAL_MARK not in t:
             s.add(tuple(f[1:5])); s.add(tuple(H.link_compl(f)[1:5]))
     return s
 
@@ -283,6 +283,8 @@ def oracle(case):
             f = F[0]
             head, _, rest = f.partition(":")
             return ["%s%s-after-%s:%s %s" % (pre_, head, H.step_kind(step), rest, where)]
+        if op == "rename" and step[2] == "*" and not failed:
+            return []  # a possibly mentioned line made anonymous: what is written from here on is nobody's promise
     return []
 
 
